@@ -18,7 +18,8 @@ technique of unit c36_channel's `ch` and unit c39_write's `disk`):
        * `drop(g)` -> `vx_drop(g, held, Ghost(vx_kN))` (the key of the latest in-scope guard of that name).
        * a TEMPORARY guard (`X.read().await.foo()`, not bound) lives to the end of the enclosing statement: the rule binds it
          (`let mut vx_gN = X.read().await; <statement with vx_gN>; drop(vx_gN);`, the drop then becomes a `vx_drop` like any other). This is only done when the acquisition is the
-         leftmost sub-expression of a `let` / expression statement (so that hoisting it does not change the evaluation order).
+         leftmost sub-expression of a `let` / expression statement (so that hoisting it does not change the evaluation order), or the
+         head of the second operand of `||` / `&&` (a temporary scope of its own: `A || B` -> `A || { let mut g = ..; let vx_b = g.REST; drop(g); vx_b }`).
        * `let _ = g;` does not move `g` (the wildcard pattern binds nothing): untouched, the guard stays live.
   (h3) `tokio::spawn(async move { BODY });` -> `vx_spawned();`: the task body is verified as its own item (a statement slice) that
        starts with `held == {}`; nothing of the spawning task's `held` is visible to it and vice versa.
@@ -408,6 +409,26 @@ def _hoist_temps(text):
         for i in range(1, len(toks) - 5):
             if T(i) == '.' and T(i + 1) in ACQ and T(i + 2) == '(' and T(i + 3) == ')' and T(i + 4) == '.' and T(i + 5) == 'await' and T(i + 6) == '.':
                 cs = _chain_start(text, toks, i - 1)
+                lazy = (T(cs - 1) == T(cs - 2) and T(cs - 1) in ('|', '&') and toks[cs - 1][1] == toks[cs - 2][2]
+                        and (T(cs - 3) in (')', ']', '?') or toks[cs - 3][0] in ('ident', 'num', 'str')))
+                if lazy:
+                    # the temporary is (the head of) the SECOND OPERAND OF A LAZY BOOLEAN expression `A || B` / `A && B`: that operand is a
+                    # temporary scope of its own (Rust reference, temporary scopes), so the guard is dropped when B has been evaluated, while
+                    # everything A left held is still held:  A || B  ->  A || { let mut g = ACQ; let vx_b = g.REST; drop(g); vx_b }
+                    e = i + 6
+                    while e < len(toks):
+                        t = T(e)
+                        if t in ('(', '['):
+                            e = L.match_close(text, toks, e) + 1; continue
+                        if t in (';', ',', ')', ']', '}', '{'): break
+                        if t in ('|', '&') and T(e + 1) == t and toks[e + 1][1] == toks[e][2]: break
+                        e += 1
+                    k += 1
+                    g = 'vx_g%d' % k
+                    acq = text[toks[cs][1]:toks[i + 5][2]]
+                    rest = text[toks[i + 5][2]:toks[e - 1][2]]
+                    hit = (toks[cs][1], toks[e - 1][2], '{ let mut %s = %s; let vx_b = %s%s; drop(%s); vx_b }' % (g, acq, g, rest, g))
+                    break
                 # the statement: `let PAT = CHAIN...;` or `CHAIN...;`
                 s = cs
                 if T(cs - 1) == '=':
@@ -429,7 +450,7 @@ def _hoist_temps(text):
     return text, k
 
 
-def _awaits(text, fn_name, long_names):
+def _awaits(text, fn_name, long_names, client_names=(), join='vx_join_all()'):
     n_acq = n_call = 0
     while True:
         toks = L.code_tokens(text)
@@ -452,6 +473,7 @@ def _awaits(text, fn_name, long_names):
                         if depth == 0: break
                     j -= 1
                 name = T(j - 1)
+                extra = ''
                 if name == '>':
                     # `callee::<T>(..)`: the callee is in front of the turbofish
                     d, q = 0, j - 1
@@ -466,6 +488,14 @@ def _awaits(text, fn_name, long_names):
                 if name in ACQ and empty and T(j - 2) == '.':
                     label = '/*@C28.order.%s*/' % fn_name
                     n_acq += 1
+                elif name in client_names:
+                    label = '/*@C28.no-client-round-trip-under-any-guard.%s*/' % fn_name
+                    n_call += 1
+                elif name == 'recv':
+                    # waiting for the results of spawned tasks: the shim is also told which locks those tasks take
+                    label = '/*@C28.no-task-join-under-guard.%s*/' % fn_name
+                    extra = ', %s' % join
+                    n_call += 1
                 elif name in long_names:
                     label = '/*@C28.no-long-await-under-write-lock.%s*/' % fn_name
                     n_call += 1
@@ -474,13 +504,13 @@ def _awaits(text, fn_name, long_names):
                     n_call += 1
                 close = toks[i - 2][1]
                 if T(i - 3) == ',':
-                    edits = [(toks[i - 3][2], close, ' held'), (toks[i - 2][2], b, ' ' + label)]
+                    edits = [(toks[i - 3][2], close, ' held' + extra), (toks[i - 2][2], b, ' ' + label)]
                 else:
-                    edits = [(close, close, 'held' if empty else ', held'), (toks[i - 2][2], b, ' ' + label)]
+                    edits = [(close, close, ('held' if empty else ', held') + extra), (toks[i - 2][2], b, ' ' + label)]
                 hit = edits
             else:
                 cs = _chain_start(text, toks, i - 2)
-                label = '/*@C28.no-long-await-under-write-lock.%s*/' % fn_name
+                label = '/*@C28.no-client-round-trip-under-any-guard.%s*/' % fn_name
                 hit = [(toks[cs][1], b, 'vx_await(%s, held) %s' % (text[toks[cs][1]:toks[i - 2][2]], label))]
                 n_call += 1
             break
@@ -574,7 +604,7 @@ def _tries(text, ret_option):
                 if not ret_option:
                     raise Undecided('c28: `?` under a live guard in a fn that does not return Option')
                 cs = _chain_start(text, toks, i - 1)
-                operand = text[toks[cs][1]:toks[i - 1][2]]
+                operand = text[toks[cs][1]:toks[i][1]].rstrip()      # keeps a label comment that sits between the call and the `?`
                 new = '(match %s { Some(vx_v) => vx_v, None => { %sreturn None; } })' % (operand, _ends(gs))
                 hit = (toks[cs][1], toks[i][2], new)
                 n += 1
@@ -691,7 +721,7 @@ def _loop_invariants(text, extra):
 
 
 @rule('c28-held')
-def c28_held(text, fn=None, sig=True, long=(), ret_option=None, inv=None, **_):
+def c28_held(text, fn=None, sig=True, long=(), client=(), join='vx_join_all()', ret_option=None, inv=None, **_):
     """(h1) + (h2) of the rule family `c28-held` (module docstring): thread the ghost `held`, write out the guard releases."""
     if fn is None:
         sh = X.fn_shape(text)
@@ -702,7 +732,7 @@ def c28_held(text, fn=None, sig=True, long=(), ret_option=None, inv=None, **_):
     if sig:
         text = _held_pass_sig(text)
     text, n_tmp = _hoist_temps(text)
-    text, n_acq, n_call = _awaits(text, fn, set(long))
+    text, n_acq, n_call = _awaits(text, fn, set(long), set(client), join)
     words = {L.tok_text(text, t) for t in L.code_tokens(text) if t[0] == 'ident'}
     if 'await' in words or 'async' in words:
         raise Undecided('c28-held: an await / async block remains in %s' % fn)
